@@ -5,6 +5,7 @@
 -/
 import NngModel.Proofs.XsubInv
 import NngModel.Spec.PubSub
+import NngModel.Generated.C05
 namespace Nng.Xsub
 open Nng Nng.Proto Nng.PubSubSpec
 
